@@ -57,3 +57,15 @@ func (e *VerifHeaderEncoder) EncodeTrailers(trailer http.Header) ([]byte, error)
 	b, err := e.cc.encodeTrailers(trailer, nil)
 	return append([]byte(nil), b...), err
 }
+
+// VerifHoldWriteLock takes the connection's write lock cc.wmu (what a flush to a slow peer, a
+// SETTINGS ack or a PING reply of the read loop holds for a moment) and returns the function that
+// releases it: the harness uses it to force an order among streams that come to write at the same time.
+func VerifHoldWriteLock(cc *ClientConn) (release func()) {
+	cc.wmu.Lock()
+	return cc.wmu.Unlock
+}
+
+// VerifNewRequestPending reports whether a request holds the connection's new-request lock
+// (cc.reqHeaderMu): it is between stream creation and the write of its HEADERS.
+func VerifNewRequestPending(cc *ClientConn) bool { return len(cc.reqHeaderMu) > 0 }
